@@ -70,6 +70,7 @@ void mv_set_report_fn(void (*fn)(int code, const char * msg)); /* extra report l
 /* hooks for harnesses */
 void mv_set_quiescent_fn(int (*fn)(void));      /* returns 1 iff all run queues are empty */
 void mv_set_point_observer(void (*fn)(int id, int me)); /* called on every point before the decision */
+void mv_set_spin_observer(void (*fn)(int id, int me));    /* called at every spin hook of a joined participant, before the token moves */
 void mv_set_fence_observer(void (*fn)(int kind, int me));
 void mv_set_rng_reseed(int on);
 
